@@ -153,12 +153,12 @@ class AtomicIntegralBase<T, true> : public AtomicFloatingBase<T, true> {
 
   T fetch_and(T arg, std::memory_order) noexcept {
     auto val = _value;
-    _value += arg;
+    _value &= arg;
     return val;
   }
   T fetch_and(T arg, std::memory_order) volatile noexcept {
     auto val = _value;
-    _value += arg;
+    _value &= arg;
     return val;
   }
 
